@@ -140,6 +140,7 @@ Exec ==
          [] ins.op = "A1" -> IF stack = <<>> THEN Halt(S0, "ValueStackUnderflow") ELSE [next EXCEPT !.stack = Append(Pop1, 0)]
          [] ins.op = "A2" -> IF Len(stack) < 2 THEN Halt(S0, "ValueStackUnderflow") ELSE [next EXCEPT !.stack = Append(Pop2, 0)]
          [] ins.op = "P0" -> next
+         [] ins.op = "G0" -> IF Len(stack) >= StackMax THEN Halt(S0, "ValueStackOverflow") ELSE [next EXCEPT !.stack = Append(stack, 0)]   \* pushes a measured value (MPPEM, MPS)
          [] ins.op = "P3" -> IF Len(stack) < 3 THEN Halt(S0, "ValueStackUnderflow") ELSE [next EXCEPT !.stack = SubSeq(stack, 1, Len(stack) - 3)]
          [] ins.op = "P5" -> IF Len(stack) < 5 THEN Halt(S0, "ValueStackUnderflow") ELSE [next EXCEPT !.stack = SubSeq(stack, 1, Len(stack) - 5)]
          [] ins.op = "P1" -> IF stack = <<>> THEN Halt(S0, "ValueStackUnderflow") ELSE [next EXCEPT !.stack = Pop1]
